@@ -597,6 +597,7 @@ pub fn evaluate_scenario(ctx: &Ctx, scenario: &Scenario) -> RunReport {
 pub fn scenario_of(ctx: &Ctx, run: u64) -> Option<Scenario> {
     match ctx.property.as_str() {
         "C05" => Some(Scenario::A(gen_c05(ctx, run))),
+        "C04" if run % 4 == 3 => Some(Scenario::A(gen_c05(ctx, run ^ 0x00C0_4A00_0000))),
         "C04" => Some(Scenario::B(gen_c04(ctx, run))),
         "C13" => Some(Scenario::A(gen_c13(ctx, run))),
         "C12" => {
@@ -793,6 +794,15 @@ const NON_TERMINATION_NODES: u64 = 50_000_000;
 
 pub fn run_c04(ctx: &Ctx, run: u64) -> RunReport {
     let mut rep = RunReport { run, ..Default::default() };
+    // one run in four drives searches through the whole command path (position handling, go
+    // parsing, option changes) in a UCI session; the answer is judged against the position the GUI sent
+    if run % 4 == 3 {
+        let sc = gen_c05(ctx, run ^ 0x00C0_4A00_0000);
+        let out = run_a(&sc, false);
+        let nontrivial = out.stats.searches > 0;
+        absorb_a(ctx, &mut rep, &sc, &out, nontrivial);
+        return rep;
+    }
     let sc = gen_c04(ctx, run);
     let opts = BOptions { node_cap: NON_TERMINATION_NODES, keep_infos: 4 };
     let mut out = run_b(&sc, &opts);
@@ -979,7 +989,7 @@ pub fn gen_c09(ctx: &Ctx, run: u64) -> C09Plan {
     // others with the knob so that the stop also lands inside the first iteration
     let poll_interval = if run % 4 == 0 { None } else { Some(*rng.pick(&[1u64, 7, 7, 50, 50, 200])) };
     let tau_ps = gen_tau(&mut rng);
-    let initial_hash_mb = *rng.pick(&[1usize, 1, 2, 3, 16]);
+    let initial_hash_mb = *rng.pick(&[0usize, 1, 1, 2, 3, 16]);
     // depth chosen so that the number of polls K stays enumerable
     let target_depth: u8 = match poll_interval {
         None => rng.range(5, if ctx.thorough() { 8 } else { 7 }) as u8,
@@ -994,7 +1004,16 @@ pub fn gen_c09(ctx: &Ctx, run: u64) -> C09Plan {
         steps.push(gen_step(&mut rng, poll_interval, tau_ps, 4, false));
     }
     let mate_bias = rng.chance(1, 3);
-    let (fen, moves) = gen_position(&mut rng, mate_bias);
+    let (mut fen, mut moves) = gen_position(&mut rng, mate_bias);
+    // with the shipped interval, sometimes a deep search of a small ending (pruning and verification
+    // paths that only exist at high remaining depth)
+    let mut target_depth = target_depth;
+    if poll_interval.is_none() && rng.chance(1, 3) {
+        let endings: Vec<&str> = super::corpus::all().into_iter().filter(|f| f.split(' ').next().unwrap().chars().filter(|c| c.is_alphabetic()).count() <= 9).collect();
+        fen = Some(rng.pick(&endings).to_string());
+        moves = vec![];
+        target_depth = rng.range(9, 11) as u8;
+    }
     // the cancelled search runs under each kind of limit (depth only / fixed move time / clocks, the
     // time limits far in the future), and the cancellation reaches it through the stop flag or —
     // for the timed kinds — through the simulated clock jumping past the limit at poll k
@@ -1582,7 +1601,7 @@ fn gen_c12_script(rng: &mut Rng, thorough: bool, with_newgame: bool, bare_go_aft
         }
     }
     // (thorough) the old game may have run the built-in benchmark, which uses tables of its own
-    if with_newgame && thorough && rng.chance(1, 400) {
+    if with_newgame && thorough && rng.chance(1, 2000) {
         script.push(Intent::Raw("bench".into()));
     }
     for i in 0..n {
